@@ -258,6 +258,25 @@ void RunObjectOps(TArchive& archive, const JVal& opsArr, Log* log, TSelf* self, 
 			}
 			else { fprintf(stderr, "base nesting too deep\n"); exit(3); }
 		}
+		else if (kind == "attr")
+		{
+			// XML attribute of the current object element: archive << AttributeValue(key, value)
+			if constexpr (BitSerializer::can_serialize_attribute_v<TArchive>)
+			{
+				WithType(op["t"].GetString(), [&](auto* tag) {
+					using T = std::remove_pointer_t<decltype(tag)>;
+					if constexpr (std::is_arithmetic_v<T> || std::is_same_v<T, std::string>)
+					{
+						T target = Prior<T>();
+						if constexpr (!TArchive::IsLoading()) { if (op.HasMember("v")) FromCanon(op["v"], target); }
+						bool loaded = false;
+						const std::string key = BytesFromJson(op["ks"]);
+						archive << BitSerializer::AttributeValue(key, target, [&loaded](const T&, bool isLoaded) -> std::optional<std::string> { loaded = isLoaded; return std::nullopt; });
+						if constexpr (TArchive::IsLoading()) log->Add(std::string("[\"attr\",") + (loaded ? "true" : "false") + "," + Canon(target) + "]");
+					}
+				});
+			}
+		}
 		else if (kind == "req")
 		{
 			WithType(op["t"].GetString(), [&](auto* tag) {
